@@ -433,6 +433,11 @@ class CInference(Inference):
         # self._translation_start_query()
         # translated_query = Conditional_z3.translate_from_existing(query)
         # self._translation_end_query()
+        if not hasattr(self, "base_csp"):
+            # a new operator instance is created for every InferenceManager.inference()
+            # call, but preprocessing (cached in the epistemic state) only runs once;
+            # rebuild the base CSP from the cached minimal correction subsets
+            self.base_csp = self.translate()
         solver = Solver(name=self.epistemic_state["smt_solver"])
         for constraint in self.base_csp:
             solver.add_assertion(constraint)
